@@ -2,7 +2,7 @@
 (* C04 layer 2: judge of traces of the REAL engine (adapter replayprot and the driver replayprot-mine).
    Event Offer: a real block on block p with timestamp tm was assembled by the real miner path from a candidate list
    (got = the transactions it packaged) and offered to a real node (chain.BlockChain.InsertBlock): ok = accepted;
-   cnt = how many times the payloads t and u have taken effect on the branch ending in the new block, read from the
+   cnt = how many times the payloads t, u and r have taken effect on the branch ending in the new block, read from the
    node's own state (recipient balance / amount).  Stabilise: the block received the missing confirms.  Reboot: the node
    was closed and reopened (chain.NewBlockChain: the guard is rebuilt by initTxPool).
    The monitor keeps the tree of offered blocks and demands
@@ -11,14 +11,27 @@
               the ancestor chain of p  (other forks do not count);
      cnt = cnt of the parent + occurrences in the block  (every packaged transaction really takes effect once per occurrence).
    By induction every payload takes effect at most once per branch and only inside its window.
+   Carriers: the 4th argument of Offer names the carrier encoding in which the candidate list was handed to the miner and in
+   which the box payloads of the offered block are written (redundant "hash" member forged / naming another real
+   transaction / missing, junk gasUsed, unknown members, member order, white space; "c" = canonical).  got names the
+   packaged transactions by their signed content (read from their fields); the demanded verdict and counts are functions of
+   got, p and tm only - the identity under which the node files a transaction may depend on nothing but its signed content.
+   Admit: a transaction list arrived at the node (the three lines of PublicTxAPI.SendTx / handleTxsMsg: not ExistTx on the
+   head => pool.AddTx); nothing is demanded of the admission itself, the next Mined event judges what the miner makes of it.
    Mined: the engine's own MineBlock produced a block; the same verdict is demanded of what the miner packaged.
-   Deviations listed in known_findings.txt (AllowedDev) are accepted only in exactly their form and reported by UseDev. *)
+   Identity: payload[x] names the SENDER-signed content of x; two different transactions x # y with payload[x] = payload[y] differ
+   only in what their sender did not sign - how[x] says in what: "sig" (the bytes of the signature: s -> n-s), "add" (a signature
+   appended by somebody else) or "gas" (a reimbursement transaction priced and signed again by its gas payer).  All are replays
+   of one signed payload.
+   Deviations listed in known_findings.txt (AllowedDev) are accepted only in exactly their form and reported by UseDev:
+   a replay through another signature encoding only under Dev_TxMalleableEncoding, through an appended signature only under
+   Dev_TxExtraSignature, through re-pricing only under Dev_RepricedReimbursement. *)
 EXTENDS TraceBase
 CONSTANT AllowedDev
-VARIABLES exp, subs, payload, blocks, stable, dead
-tvars == <<exp, subs, payload, blocks, stable, dead, l>>
+VARIABLES exp, subs, payload, how, blocks, stable, dead
+tvars == <<exp, subs, payload, how, blocks, stable, dead, l>>
 Life == 1800
-Pays == {"t", "u"}                                        \* payloads whose effect is observable as a balance
+Pays == {"t", "u", "r"}                                        \* payloads whose effect is observable as a balance
 RECURSIVE AncIn(_, _)
 AncIn(bl, b) == IF b = 0 THEN {} ELSE {b} \cup AncIn(bl, bl[b].parent)
 Usable == {b \in 1..Len(blocks) : blocks[b].acc /\ b \notin dead /\ stable \in AncIn(blocks, b)}
@@ -39,19 +52,27 @@ DupInBlockH(L) == ~NoDup(ExecAll(L))                     \* the very same transa
 ReplayP(p, L) == Range(Pay(ExecAll(L))) \cap DoneP(p) # {}
 ReplayH(p, L) == Range(ExecAll(L)) \cap DoneH(p) # {}
 Valid(p, tm, L) == AllLegal(tm, L) /\ ~DupInBlock(L) /\ ~ReplayP(p, L)
+\* the different transactions with one sender-signed payload that meet in the block L / on the branch ending in it
+ClashIds(p, L) == LET X == ExecAll(L) IN
+  {z \in DOMAIN subs : \E i \in 1..Len(X) : \E y \in DoneH(p) \cup {X[j] : j \in (1..Len(X)) \ {i}} :
+                          y # X[i] /\ payload[y] = payload[X[i]] /\ z \in {y, X[i]}}
+Kinds(p, L) == {how[z] : z \in ClashIds(p, L)} \ {""}        \* in what they differ
 \* the verdict on a block (by a validator: accepted; of the miner: packaged)
 Verdict(ok, p, tm, L) ==
   \/ ok = Valid(p, tm, L)
   \/ /\ ok /\ ~Valid(p, tm, L)
      /\ AllLegal(tm, L) /\ ~ReplayH(p, L)            \* never: outside the window, or the same transaction hash again on the branch
      /\ DupInBlockH(L) => "Dev_DupTxInBlock" \in AllowedDev /\ UseDev("Dev_DupTxInBlock")
-     /\ (ReplayP(p, L) \/ (DupInBlock(L) /\ ~DupInBlockH(L))) =>                    \* only the other encoding is a duplicate
-            "Dev_TxMalleableEncoding" \in AllowedDev /\ UseDev("Dev_TxMalleableEncoding")
+     /\ DupInBlockH(L) \/ Kinds(p, L) # {}                                         \* the same payload under another transaction hash:
+     /\ Kinds(p, L) \subseteq {"sig", "add", "gas"}
+     /\ "sig" \in Kinds(p, L) => "Dev_TxMalleableEncoding" \in AllowedDev /\ UseDev("Dev_TxMalleableEncoding")      \* another signature encoding
+     /\ "add" \in Kinds(p, L) => "Dev_TxExtraSignature" \in AllowedDev /\ UseDev("Dev_TxExtraSignature")            \* a signature appended by somebody else
+     /\ "gas" \in Kinds(p, L) => "Dev_RepricedReimbursement" \in AllowedDev /\ UseDev("Dev_RepricedReimbursement")  \* priced again by its gas payer
 CntOK(c, p, L) == \A x \in Pays : c[x] = blocks[p].cnt[x] + Count(Pay(ExecAll(L)), x)
 Fun(o) == [k \in DOMAIN o |-> o[k]]
 TReset == /\ Ev("reset")
           /\ E.life = Life /\ E.stable = 1 /\ E.head = 1
-          /\ exp' = Fun(E.exp) /\ subs' = Fun(E.subs) /\ payload' = Fun(E.payload)
+          /\ exp' = Fun(E.exp) /\ subs' = Fun(E.subs) /\ payload' = Fun(E.payload) /\ how' = Fun(E.how)
           /\ \A x \in Pays : E.cnt[x] = 0
           /\ blocks' = <<[parent |-> 0, time |-> 0, txl |-> <<>>, acc |-> TRUE, cnt |-> [x \in Pays |-> 0]]>>
           /\ stable' = 1 /\ dead' = {}
@@ -59,21 +80,22 @@ NoCnt == [x \in Pays |-> -1]
 TOffer == /\ Ev("Offer")
           /\ LET p == E.a[1]  tm == E.a[2]  L == E.got IN
              /\ p \in Usable /\ tm >= blocks[p].time /\ E.id = Len(blocks) + 1
-             /\ Range(L) \subseteq DOMAIN subs
+             /\ Range(L) \subseteq DOMAIN subs /\ Range(E.a[3]) \subseteq DOMAIN subs
+             /\ E.a[4] \in STRING                                    \* the carrier encoding: no demand depends on it
              /\ CntOK(E.mcnt, p, L)                                   \* in the miner's state every packaged tx took effect
              /\ Verdict(E.ok, p, tm, L)
              /\ E.ok => CntOK(E.cnt, p, L)                            \* and in the validating node's state
              /\ E.stable = stable
              /\ blocks' = Append(blocks, [parent |-> p, time |-> tm, txl |-> L, acc |-> E.ok,
                                           cnt |-> IF E.ok THEN [x \in Pays |-> E.cnt[x]] ELSE NoCnt])
-          /\ UNCHANGED <<exp, subs, payload, stable, dead>>
+          /\ UNCHANGED <<exp, subs, payload, how, stable, dead>>
 TStabilise == /\ Ev("Stabilise")
               /\ E.a[1] \in Usable /\ E.stable = E.a[1] /\ stable' = E.a[1]
-              /\ UNCHANGED <<exp, subs, payload, blocks, dead>>
+              /\ UNCHANGED <<exp, subs, payload, how, blocks, dead>>
 TReboot == /\ Ev("Reboot")
            /\ E.stable = stable /\ E.head = stable                   \* the stable chain survives, unstable blocks are gone
            /\ dead' = dead \cup ((1..Len(blocks)) \ AncIn(blocks, stable))
-           /\ UNCHANGED <<exp, subs, payload, blocks, stable>>
+           /\ UNCHANGED <<exp, subs, payload, how, blocks, stable>>
 \* the engine's own MineBlock on the node's head p: what it packaged from its pool must be a block a validator may accept
 TMined == /\ Ev("Mined")
           /\ LET p == E.p  tm == E.tm  L == E.got IN
@@ -84,8 +106,11 @@ TMined == /\ Ev("Mined")
                    /\ AllLegal(tm, L) /\ ~DupInBlock(L) /\ ReplayH(p, L)   \* exactly: a tx already on its own branch, handed back by the pool
              /\ CntOK(E.cnt, p, L)
              /\ blocks' = Append(blocks, [parent |-> p, time |-> tm, txl |-> L, acc |-> TRUE, cnt |-> [x \in Pays |-> E.cnt[x]]])
-          /\ UNCHANGED <<exp, subs, payload, stable, dead>>
-TraceNext == TReset \/ TOffer \/ TStabilise \/ TReboot \/ TMined
-TraceSpec == /\ l = 1 /\ exp = <<>> /\ subs = <<>> /\ payload = <<>> /\ blocks = <<>> /\ stable = 0 /\ dead = {}
+          /\ UNCHANGED <<exp, subs, payload, how, stable, dead>>
+TAdmit == /\ Ev("Admit")
+          /\ Range(E.a[1]) \subseteq DOMAIN subs /\ E.a[2] \in STRING
+          /\ UNCHANGED <<exp, subs, payload, how, blocks, stable, dead>>
+TraceNext == TReset \/ TOffer \/ TStabilise \/ TReboot \/ TMined \/ TAdmit
+TraceSpec == /\ l = 1 /\ exp = <<>> /\ subs = <<>> /\ payload = <<>> /\ how = <<>> /\ blocks = <<>> /\ stable = 0 /\ dead = {}
              /\ [][TraceNext]_tvars
 ====
